@@ -161,6 +161,8 @@ def run(ctx):
             size = ctx.rng.randint(0, 60)
             xmin = ctx.rng.randint(1, 9)
             alpha = ctx.rng.choice([1.2, 1.5, 2.0, 2.5, 3.7])
+            if r % 7 == 3:
+                size, alpha, xmin = 300, (1e12, 1e15, 1e18, 1e9)[(r // 7) % 4], ctx.rng.choice([1, 3, 7, 101])
             if r % 5 == 2:
                 # heavy tail: legal exponents close to 1 draw astronomically large (still integer-valued, >= xmin) numbers
                 size, alpha = 1500, (1.05, 1.1, 1.15)[(r // 20) % 3]
